@@ -782,3 +782,36 @@ def c11(run):
     for ln, (t, why) in sorted(bad.items()):
         sc = json.loads(scen[ln - 1])
         run.violation("walk:%s|%s" % (sc["sec"], why), why, sc)
+
+
+# ------------------------------------------------------------------------------------------------
+# C13: record text -> wire record
+
+@check("C13")
+def c13(run):
+    import synthgen
+    run.assumptions += ["valid texts are rendered by the scenario generator from structured records (all nine types; boundary values: TTL 0 .. 2^32-1, 62-byte labels in every position, 253-byte names as owner and inside NS/CNAME/PTR/MX/SOA data, preference 0/65535, TXT of 1/255/256/510/511/3825 bytes and every byte value through decimal escapes, digests of 1/20/32/48 bytes, IPv6 forms) in four whitespace / keyword-case styles; the structured record travels with the text and TLC computes the expected wire form",
+                        "texts whose classification the statement leaves open (all-numeric owners, leading-zero octets, bytes >= 128 outside TXT escapes) are only generated in the arbitrary-string family, whose oracle is: no panic; anything returned is a well-formed record; inserting it leaves an accepted packet"]
+    run.model("MC_Synth", "MC_Synth.cfg")
+    scen = dedupe(synthgen.scenarios(vlib.seed(), run.tier))
+    obs, path = vlib.drive(scen, run.wd, "synth")
+    if len(obs) != len(scen):
+        raise ToolError("driver returned %d observations for %d scenarios" % (len(obs), len(scen)))
+    bad, out = vlib.validate(path, "Trace_Synth", "Trace_Synth_C13.cfg", run.wd, len(obs), {"VIOLATION-C13"})
+    kinds = collections.Counter()
+    for sc, o in zip(scen, obs):
+        exp = sc[sc.index('"expect":"') + 10:].split('"')[0]
+        head = o[:o.index('"wire"')]
+        res = "ok" if '"res":"ok"' in head else ("panic" if '"res":"panic"' in head else "err")
+        kinds[exp + "->" + res] += 1
+    run.cov["evaluations"] += len(obs)
+    run.cov["traces_validated_against_impl"] += len(obs) - len(bad)
+    run.cov["by_expectation_and_result"] = dict(kinds)
+    run.cov["distinct_nontrivial"] = sum(v for k, v in kinds.items() if k.startswith("ok") or k.startswith("err"))
+    run.cov["rule"] = "distinct texts; non-trivial = the statement fixes the outcome (grammar-derived valid text, or systematically damaged text)"
+    run.cov["samples"] = [vlib.shorten(bytes(json.loads(s)["text"]).decode("latin1"), 200) for s in vlib.sample(scen, 4)]
+    for ln, (t, why) in sorted(bad.items()):
+        sc = json.loads(scen[ln - 1])
+        txt = bytes(sc["text"]).decode("latin1")
+        ty = next((w for w in txt.upper().split() if w in synthgen.TYPES), "?")
+        run.violation("synth:%s|%s" % (ty, _re.sub(r"\d+", "N", str(why))[:140]), why + " | text: " + txt[:120], sc)
